@@ -90,6 +90,13 @@ Proof.
     apply H in H0. destruct (p y); auto; discriminate.
 Qed.
 
+Lemma NoDup_snoc {A} (l : list A) x : NoDup l -> ~ In x l -> NoDup (l ++ [x]).
+Proof.
+  induction 1 as [|y tl N ND IH]; simpl; intros H.
+  - constructor; [tauto|constructor].
+  - constructor; [|apply IH; tauto]. rewrite in_app_iff. simpl. intros [K|[K|[]]]; [tauto|subst; tauto].
+Qed.
+
 (* ------------------------------------------------------------------ the structural invariant *)
 Definition hooks_wf (s : state) : Prop :=
   forall l, l < length (layers s) ->
@@ -126,7 +133,7 @@ Qed.
 
 (* a monitor-local change that keeps layer / prepend / registration and only adds bounded stamps *)
 Lemma HW_upd_mon i f s :
-  (forall m, m_layer (f m) = m_layer m /\ m_prepend (f m) = m_prepend m /\ m_reg (f m) = m_reg m) ->
+  (let m := get_mon s i in m_layer (f m) = m_layer m /\ m_prepend (f m) = m_prepend m /\ m_reg (f m) = m_reg m) ->
   (forall o, In o (m_obs (f (get_mon s i))) ->
              In o (m_obs (get_mon s i)) \/ fst o <= l_steps (get_layer s (m_layer (get_mon s i)))) ->
   HW s -> HW (upd_mon i f s).
@@ -154,7 +161,7 @@ Proof.
 Qed.
 
 Lemma HW_set_fresh i b s : HW s -> HW (upd_mon i (set_fresh b) s).
-Proof. apply HW_upd_mon; [intros m; destruct m; simpl; auto|intros o Ho; left; destruct (get_mon s i); auto]. Qed.
+Proof. apply HW_upd_mon; [destruct (get_mon s i); simpl; auto|intros o Ho; left; destruct (get_mon s i); auto]. Qed.
 
 (* a change of one layer's hook list and of one monitor's registration flag, described pointwise *)
 Lemma HW_rehook s s' (i lm : nat) (b : bool) (newh : list nat -> list nat) :
@@ -258,7 +265,7 @@ Proof.
   - exact Hi.
   - intros h ND Nin. specialize (Nin eq_refl). destruct pre.
     + constructor; auto.
-    + apply NoDup_app_remove_r_inv; auto.
+    + apply NoDup_snoc; auto.
   - intros h j. destruct pre; simpl.
     + split; intros [K|K]; auto.
     + rewrite in_app_iff. simpl. split; [intros [K|[K|[]]]; auto|intros [K|K]; auto].
@@ -268,3 +275,735 @@ Proof.
   - intros _. exact Er.
   - exact H.
 Qed.
+
+(* appending a fresh, unregistered monitor *)
+Lemma HW_append m s : m_reg m = false -> m_obs m = [] -> HW s -> HW (set_mons (mons s ++ [m]) s).
+Proof.
+  intros Er Eo (H1 & H2 & H3).
+  assert (G : forall j, j < length (mons s) -> get_mon (set_mons (mons s ++ [m]) s) j = get_mon s j).
+  { intros j Hj. unfold get_mon; simpl. apply nth_app_old; auto. }
+  assert (Gn : get_mon (set_mons (mons s ++ [m]) s) (length (mons s)) = m).
+  { unfold get_mon; simpl. apply nth_app_new. }
+  assert (LM : length (mons (set_mons (mons s ++ [m]) s)) = S (length (mons s))).
+  { simpl. rewrite app_length. simpl. lia. }
+  split; [|split].
+  - intros l Hl. change (get_layer (set_mons (mons s ++ [m]) s) l) with (get_layer s l).
+    destruct (H1 l Hl) as [ND IFF]. split; auto. intros j. rewrite LM. rewrite IFF. split.
+    + intros (A & B & C). rewrite G by auto. split; auto.
+    + intros (A & B & C). destruct (Nat.eq_dec j (length (mons s))) as [->|N].
+      * rewrite Gn in B. congruence.
+      * assert (j < length (mons s)) by lia. rewrite G in B, C by auto. auto.
+  - intros l Hl. change (get_layer (set_mons (mons s ++ [m]) s) l) with (get_layer s l).
+    rewrite <- (H2 l Hl). apply pp_sorted_ext. intros x Hx. apply (H1 l Hl) in Hx as (A & _). rewrite G; auto.
+  - intros j Hj o Ho. rewrite LM in Hj. change (get_layer (set_mons (mons s ++ [m]) s)) with (get_layer s).
+    destruct (Nat.eq_dec j (length (mons s))) as [->|N].
+    + rewrite Gn in Ho. rewrite Eo in Ho. destruct Ho.
+    + assert (j < length (mons s)) by lia. rewrite G in * by auto. auto.
+Qed.
+
+Lemma new_monitor_spec lay attr tg pre reads s s' i :
+  new_monitor lay attr tg pre reads s = (s', i) ->
+  i = length (mons s) /\ length (mons s') = S (length (mons s)) /\
+  trainers s' = trainers s /\ cmon s' = cmon s /\ accs s' = accs s /\
+  length (layers s') = length (layers s) /\
+  (forall j, j < length (mons s) -> get_mon s' j = get_mon s j) /\
+  get_mon s' i = mkMon lay attr tg pre reads true true true [] /\
+  (forall l, l_training (get_layer s' l) = l_training (get_layer s l) /\ l_steps (get_layer s' l) = l_steps (get_layer s l)) /\
+  (HW s -> HW s').
+Proof.
+  unfold new_monitor. intros E. inversion E; subst; clear E.
+  set (m := mkMon lay attr tg pre reads false true true []).
+  set (s1 := set_mons (mons s ++ [m]) s).
+  assert (L1 : length (mons s1) = S (length (mons s))) by (simpl; rewrite app_length; simpl; lia).
+  assert (Gn : get_mon s1 (length (mons s)) = m) by (unfold get_mon; simpl; apply nth_app_new).
+  assert (Hi : length (mons s) < length (mons s1)) by lia.
+  split; auto. unfold do_register. rewrite Gn. simpl m_layer. simpl m_prepend.
+  split; [rewrite length_mons_upd_mon; auto|].
+  split; [reflexivity|]. split; [reflexivity|]. split; [reflexivity|].
+  split; [simpl; apply length_upd|].
+  split.
+  { intros j Hj. rewrite get_mon_upd_other by lia.
+    unfold get_mon; simpl. apply nth_app_old; auto. }
+  split.
+  { rewrite get_mon_upd_same by (simpl; rewrite app_length; simpl; lia).
+    change (get_mon (upd_layer lay (fun l => set_hooks (if pre then length (mons s) :: l_hooks l else l_hooks l ++ [length (mons s)]) l) s1) (length (mons s))) with (get_mon s1 (length (mons s))).
+    rewrite Gn. reflexivity. }
+  split.
+  { intros l. match goal with |- context [upd_mon ?a ?b ?c] => change (get_layer (upd_mon a b c) l) with (get_layer c l) end.
+    destruct (Nat.lt_ge_cases lay (length (layers s1))) as [Hl|Hl]; [|rewrite upd_layer_oob by auto; auto].
+    destruct (Nat.eq_dec lay l) as [<-|N]; [rewrite get_layer_upd_same by auto; auto|rewrite get_layer_upd_other by auto; auto]. }
+  intros H. assert (HW s1) by (apply HW_append; auto).
+  pose proof (HW_do_register (length (mons s)) s1 Hi) as K. unfold do_register in K. rewrite Gn in K. simpl in K.
+  apply K; auto.
+Qed.
+
+(* ------------------------------------------------------------------ pools reference existing monitors *)
+Definition pool_mids (t : trainer) : list nat := flat_map (fun g => map snd (snd g)) (t_pool t).
+Definition PV (s : state) : Prop := forall t i, In i (pool_mids (get_trainer s t)) -> i < length (mons s).
+
+Lemma pool_mids_In t i :
+  In i (pool_mids t) <-> exists cn g mn, In (cn, g) (t_pool t) /\ In (mn, i) g.
+Proof.
+  unfold pool_mids. rewrite in_flat_map. split.
+  - intros [[cn g] [H1 H2]]. simpl in H2. apply in_map_iff in H2 as [[mn j] [E H2]]. simpl in E; subst.
+    exists cn, g, mn; auto.
+  - intros (cn & g & mn & H1 & H2). exists (cn, g). split; auto. simpl. apply in_map_iff. exists (mn, i); auto.
+Qed.
+
+Lemma pool_get_mids t cn mn i : pool_get t cn mn = Some i -> In i (pool_mids t).
+Proof.
+  unfold pool_get. destruct (alookup cn (t_pool t)) eqn:E; [|discriminate]. intros H.
+  apply pool_mids_In. exists cn, l, mn. split; apply alookup_In; auto.
+Qed.
+
+Lemma pool_put_mids cn mn i t j : In j (pool_mids (pool_put cn mn i t)) -> j = i \/ In j (pool_mids t).
+Proof.
+  rewrite !pool_mids_In. intros (cn' & g & mn' & H1 & H2). unfold pool_put in H1. simpl in H1.
+  apply In_aset_weak in H1 as [H1|H1].
+  - inversion H1; subst. apply In_aset_weak in H2 as [H2|H2]; [inversion H2; auto|].
+    right. destruct (alookup cn (t_pool t)) eqn:E; [|destruct H2]. exists cn, l, mn'. split; auto. apply alookup_In; auto.
+  - right. exists cn', g, mn'; auto.
+Qed.
+
+Lemma pool_del_entry_mids cn mn t j : In j (pool_mids (pool_del_entry cn mn t)) -> In j (pool_mids t).
+Proof.
+  unfold pool_del_entry. destruct (alookup cn (t_pool t)) eqn:E; auto.
+  rewrite !pool_mids_In. intros (cn' & g & mn' & H1 & H2). simpl in H1.
+  apply In_aset_weak in H1 as [H1|H1].
+  - inversion H1; subst. apply In_adel_weak in H2. exists cn, l, mn'. split; auto. apply alookup_In; auto.
+  - exists cn', g, mn'; auto.
+Qed.
+
+Lemma PV_mono s s' :
+  length (mons s) <= length (mons s') ->
+  (forall t i, In i (pool_mids (get_trainer s' t)) -> In i (pool_mids (get_trainer s t)) \/ i < length (mons s')) ->
+  PV s -> PV s'.
+Proof. intros L H P t i Hi. apply H in Hi as [Hi|Hi]; auto. apply P in Hi. lia. Qed.
+
+(* the alias search only ever returns a monitor out of the pool it is given *)
+Lemma alias_search_spec s self name tg pool found i :
+  alias_search s self name tg pool found = Some i ->
+  found = Some i \/
+  exists obs monitors tg', In (obs, monitors) pool /\ cell_layer obs = cell_layer self /\
+                           alookup name monitors = Some i /\ m_tags (get_mon s i) = Some tg' /\ ftags_eqb tg' tg = true.
+Proof.
+  revert found. induction pool as [|[obs monitors] tl IH]; simpl; intros found H; auto.
+  assert (R : forall f, alias_search s self name tg tl f = Some i ->
+              f = Some i \/ exists obs0 monitors0 tg', (((obs, monitors) = (obs0, monitors0)) \/ In (obs0, monitors0) tl) /\
+                cell_layer obs0 = cell_layer self /\ alookup name monitors0 = Some i /\
+                m_tags (get_mon s i) = Some tg' /\ ftags_eqb tg' tg = true).
+  { intros f Hf. apply IH in Hf as [Hf|(o & m & t' & A & B)]; auto. right. exists o, m, t'. tauto. }
+  destruct (Nat.eqb (cell_layer obs) (cell_layer self)) eqn:El; simpl in H; [|apply R; auto].
+  apply Nat.eqb_eq in El.
+  destruct (alookup name monitors) as [k|] eqn:Ek; [|apply R; auto].
+  destruct (m_tags (get_mon s k)) as [tg'|] eqn:Et; [|apply R; auto].
+  destruct (ftags_eqb tg' tg) eqn:Ef; [|apply R; auto].
+  assert (Here : exists obs0 monitors0 tg'0, (((obs, monitors) = (obs0, monitors0)) \/ In (obs0, monitors0) tl) /\
+                cell_layer obs0 = cell_layer self /\ alookup name monitors0 = Some k /\
+                m_tags (get_mon s k) = Some tg'0 /\ ftags_eqb tg'0 tg = true).
+  { exists obs, monitors, tg'. auto. }
+  destruct (cell_eqb obs self).
+  - inversion H; subst. right; auto.
+  - apply R in H as [H|H]; auto. inversion H; subst. right; auto.
+Qed.
+
+Lemma pool_view_In t obs monitors :
+  In (obs, monitors) (pool_view t) -> exists cn, In (cn, obs) (t_observed t) /\ alookup cn (t_pool t) = Some monitors.
+Proof.
+  unfold pool_view. rewrite in_flat_map. intros [[cn c] [H1 H2]]. simpl in H2.
+  destruct (alookup cn (t_pool t)) eqn:E; simpl in H2; [|destruct H2]. destruct H2 as [H2|[]]. inversion H2; subst.
+  exists cn; auto.
+Qed.
+
+(* ------------------------------------------------------------------ "nothing was observed": the relation between
+   the states before and after any operation other than a layer call *)
+Definition same_core (m m' : monitor) : Prop :=
+  m_layer m' = m_layer m /\ m_attr m' = m_attr m /\ m_tags m' = m_tags m /\ m_prepend m' = m_prepend m /\
+  m_reads m' = m_reads m /\ m_obs m' = m_obs m.
+Definition quiet (s s' : state) : Prop :=
+  length (mons s) <= length (mons s') /\
+  (forall j, j < length (mons s) -> same_core (get_mon s j) (get_mon s' j)) /\
+  (forall j, length (mons s) <= j -> j < length (mons s') -> m_obs (get_mon s' j) = []) /\
+  length (layers s') = length (layers s) /\
+  (forall l, l_steps (get_layer s' l) = l_steps (get_layer s l)).
+
+Lemma same_core_refl m : same_core m m.
+Proof. unfold same_core; tauto. Qed.
+Lemma same_core_trans a b c : same_core a b -> same_core b c -> same_core a c.
+Proof. unfold same_core; intros (A1&A2&A3&A4&A5&A6) (B1&B2&B3&B4&B5&B6). repeat split; congruence. Qed.
+
+Lemma quiet_refl s : quiet s s.
+Proof. unfold quiet; repeat split; auto; try lia; intros; apply same_core_refl. Qed.
+
+Lemma quiet_trans a b c : quiet a b -> quiet b c -> quiet a c.
+Proof.
+  intros (A1 & A2 & A3 & A4 & A5) (B1 & B2 & B3 & B4 & B5). split; [lia|]. split; [|split; [|split]].
+  - intros j Hj. eapply same_core_trans; [apply A2; auto|apply B2; lia].
+  - intros j H1 H2. destruct (Nat.lt_ge_cases j (length (mons b))) as [K|K].
+    + destruct (B2 j K) as (_ & _ & _ & _ & _ & E). rewrite E. apply A3; auto.
+    + apply B3; auto.
+  - congruence.
+  - intros l. rewrite B5. apply A5.
+Qed.
+
+(* only trainers / cmon / accs changed *)
+Lemma quiet_ext s s' : layers s' = layers s -> mons s' = mons s -> quiet s s'.
+Proof.
+  intros El Em. unfold quiet, get_mon, get_layer. rewrite El, Em. repeat split; auto; try lia.
+Qed.
+
+Lemma quiet_upd_mon i f s : (forall m, same_core m (f m)) -> quiet s (upd_mon i f s).
+Proof.
+  intros Hf. unfold quiet. rewrite length_mons_upd_mon. split; [lia|]. split; [|split; [|split]]; auto; try lia.
+  intros j Hj. destruct (Nat.eq_dec i j) as [->|N]; [rewrite get_mon_upd_same by auto; apply Hf|
+                                                     rewrite get_mon_upd_other by auto; apply same_core_refl].
+Qed.
+
+Lemma quiet_upd_hooks lm f s : (forall l, l_steps (f l) = l_steps l) -> quiet s (upd_layer lm f s).
+Proof.
+  intros Hf. unfold quiet. split; [simpl; lia|]. split; [|split; [|split]].
+  - intros j Hj. apply same_core_refl.
+  - intros j H1 H2. simpl in H2. lia.
+  - apply length_layers_upd_layer.
+  - intros l. destruct (Nat.lt_ge_cases lm (length (layers s))) as [Hl|Hl]; [|rewrite upd_layer_oob by auto; auto].
+    destruct (Nat.eq_dec lm l) as [<-|N]; [rewrite get_layer_upd_same by auto; auto|rewrite get_layer_upd_other by auto; auto].
+Qed.
+
+Lemma quiet_deregister i s : quiet s (deregister i s).
+Proof.
+  unfold deregister. destruct (m_reg (get_mon s i)); [|apply quiet_refl].
+  eapply quiet_trans;
+    [apply quiet_upd_hooks with (f := fun l => set_hooks (remove_nat i (l_hooks l)) l); reflexivity|].
+  apply quiet_upd_mon. intros m; destruct m; unfold same_core; simpl; tauto.
+Qed.
+
+Lemma quiet_do_register i s : quiet s (do_register i s).
+Proof.
+  unfold do_register.
+  eapply quiet_trans;
+    [apply quiet_upd_hooks with
+       (f := fun l => set_hooks (if m_prepend (get_mon s i) then i :: l_hooks l else l_hooks l ++ [i]) l); reflexivity|].
+  apply quiet_upd_mon. intros m; destruct m; unfold same_core; simpl; tauto.
+Qed.
+
+Lemma quiet_reregister i s : quiet s (reregister i s).
+Proof. unfold reregister. destruct (m_reg (get_mon s i)); [apply quiet_refl|apply quiet_do_register]. Qed.
+
+Lemma quiet_set_fresh i b s : quiet s (upd_mon i (set_fresh b) s).
+Proof. apply quiet_upd_mon. intros m; destruct m; unfold same_core; simpl; tauto. Qed.
+
+Lemma quiet_set_dead i s : quiet s (upd_mon i set_dead s).
+Proof. apply quiet_upd_mon. intros m; destruct m; unfold same_core; simpl; tauto. Qed.
+
+Lemma quiet_new_monitor lay attr tg pre reads s s' i :
+  new_monitor lay attr tg pre reads s = (s', i) -> quiet s s'.
+Proof.
+  intros E. destruct (new_monitor_spec _ _ _ _ _ _ _ _ E) as (Ei & L & _ & _ & _ & LL & Old & New & Ls & _).
+  unfold quiet. split; [lia|]. split; [|split; [|split]]; auto.
+  - intros j Hj. rewrite Old by auto. apply same_core_refl.
+  - intros j H1 H2. assert (j = i) by lia. subst j. rewrite New. reflexivity.
+  - intros l. apply Ls.
+Qed.
+
+(* ------------------------------------------------------------------ Inv1 = HW + PV through the pool operations *)
+Definition Inv1 (s : state) : Prop := HW s /\ PV s.
+
+Lemma Inv1_trainers_only s f t :
+  (forall i, In i (pool_mids (f (get_trainer s t))) -> In i (pool_mids (get_trainer s t))) ->
+  Inv1 s -> Inv1 (upd_trainer t f s).
+Proof.
+  intros Hf [H P]. split; [eapply HW_ext; eauto; reflexivity|].
+  intros t' i Hi. change (length (mons (upd_trainer t f s))) with (length (mons s)).
+  destruct (Nat.lt_ge_cases t (length (trainers s))) as [Ht|Ht].
+  - destruct (Nat.eq_dec t t') as [<-|N].
+    + rewrite get_trainer_upd_same in Hi by auto. apply (P t). auto.
+    + rewrite get_trainer_upd_other in Hi by auto. apply (P t'); auto.
+  - unfold upd_trainer in Hi. rewrite upd_oob in Hi by auto. apply (P t'). destruct s; auto.
+Qed.
+
+Lemma Inv1_cmon c s : Inv1 s -> Inv1 (set_cmon c s).
+Proof. intros [H P]. split; [eapply HW_ext; eauto; reflexivity|exact P]. Qed.
+
+Lemma Inv1_deregister i s : Inv1 s -> Inv1 (deregister i s).
+Proof.
+  intros [H P]. split; [apply HW_deregister; auto|].
+  pose proof (quiet_deregister i s) as (L & _).
+  intros t j Hj. assert (trainers (deregister i s) = trainers s) by (unfold deregister; destruct (m_reg (get_mon s i)); reflexivity).
+  unfold get_trainer in Hj. rewrite H0 in Hj. apply P in Hj. lia.
+Qed.
+
+Lemma Inv1_reregister i s : i < length (mons s) -> Inv1 s -> Inv1 (reregister i s).
+Proof.
+  intros Hi [H P]. unfold reregister. destruct (m_reg (get_mon s i)) eqn:E; [split; auto|].
+  split; [apply HW_do_register; auto|].
+  intros t j Hj. change (get_trainer (do_register i s) t) with (get_trainer s t) in Hj.
+  apply P in Hj. pose proof (quiet_do_register i s) as (L & _). lia.
+Qed.
+
+Lemma Inv1_set_fresh i b s : Inv1 s -> Inv1 (upd_mon i (set_fresh b) s).
+Proof.
+  intros [H P]. split; [apply HW_set_fresh; auto|].
+  intros t j Hj. rewrite length_mons_upd_mon. apply (P t); auto.
+Qed.
+
+Lemma deregister_all_Inv1 l s : Inv1 s -> Inv1 (deregister_all l s).
+Proof. revert s; induction l as [|i tl IH]; simpl; intros s H; auto. apply IH. apply Inv1_deregister; auto. Qed.
+
+Lemma deregister_all_quiet l s : quiet s (deregister_all l s).
+Proof.
+  revert s; induction l as [|i tl IH]; simpl; intros s; [apply quiet_refl|].
+  eapply quiet_trans; [apply quiet_deregister|apply IH].
+Qed.
+
+Lemma deregister_all_trainers l s : trainers (deregister_all l s) = trainers s /\ cmon (deregister_all l s) = cmon s
+                                    /\ accs (deregister_all l s) = accs s.
+Proof.
+  revert s; induction l as [|i tl IH]; simpl; intros s; auto.
+  destruct (IH (deregister i s)) as (A & B & C). rewrite A, B, C.
+  unfold deregister; destruct (m_reg (get_mon s i)); auto.
+Qed.
+
+Lemma reregister_all_Inv1 l s : (forall i, In i l -> i < length (mons s)) -> Inv1 s -> Inv1 (reregister_all l s).
+Proof.
+  revert s; induction l as [|i tl IH]; simpl; intros s Hl H; auto. apply IH.
+  - intros j Hj. pose proof (quiet_reregister i s) as (L & _). specialize (Hl j (or_intror Hj)). lia.
+  - apply Inv1_reregister; auto.
+Qed.
+
+Lemma reregister_all_quiet l s : quiet s (reregister_all l s).
+Proof.
+  revert s; induction l as [|i tl IH]; simpl; intros s; [apply quiet_refl|].
+  eapply quiet_trans; [apply quiet_reregister|apply IH].
+Qed.
+
+Lemma reregister_all_trainers l s : trainers (reregister_all l s) = trainers s /\ cmon (reregister_all l s) = cmon s
+                                    /\ accs (reregister_all l s) = accs s.
+Proof.
+  revert s; induction l as [|i tl IH]; simpl; intros s; auto.
+  destruct (IH (reregister i s)) as (A & B & C). rewrite A, B, C.
+  unfold reregister; destruct (m_reg (get_mon s i)); auto.
+Qed.
+
+Lemma clear_all_Inv1 l s : Inv1 s -> Inv1 (clear_all l s).
+Proof. revert s; induction l as [|i tl IH]; simpl; intros s H; auto. apply IH. apply Inv1_set_fresh; auto. Qed.
+
+Lemma clear_all_quiet l s : quiet s (clear_all l s).
+Proof.
+  revert s; induction l as [|i tl IH]; simpl; intros s; [apply quiet_refl|].
+  eapply quiet_trans; [apply quiet_set_fresh|apply IH].
+Qed.
+
+(* Observable.add_monitor *)
+Lemma observable_add_monitor_Inv1 s self sp t s' i :
+  Inv1 s ->
+  observable_add_monitor s self sp (if sp_unique sp then None else Some (pool_view t)) = Some (s', i) ->
+  (forall j, In j (pool_mids t) -> j < length (mons s)) ->
+  Inv1 (set_trainers (trainers s) s') /\ i < length (mons s') /\ quiet s s' /\ trainers s' = trainers s /\ accs s' = accs s.
+Proof.
+  intros [H P] E Ht. unfold observable_add_monitor in E.
+  destruct (realign_attribute self (sp_attr sp)) as [attr|]; [|discriminate].
+  set (reads := match sp_reads sp with Some (ns, strict) => Some (self, ns, strict) | None => None end) in *.
+  assert (NEW : forall tg, (let '(s1, i) := new_monitor (cell_layer self) attr tg (sp_prepend sp) reads s in
+                            Some (cmon_bind self (sp_name sp) i s1, i)) = Some (s', i) ->
+          Inv1 (set_trainers (trainers s) s') /\ i < length (mons s') /\ quiet s s' /\ trainers s' = trainers s /\ accs s' = accs s).
+  { intros tg E1. destruct (new_monitor (cell_layer self) attr tg (sp_prepend sp) reads s) as [s1 k] eqn:En.
+    inversion E1; subst; clear E1.
+    destruct (new_monitor_spec _ _ _ _ _ _ _ _ En) as (Ei & L & Tr & Cm & Ac & LL & Old & New & Ls & HWn).
+    split; [split|].
+    - eapply HW_ext; [| |apply HWn; auto]; reflexivity.
+    - intros t' j Hj. simpl. unfold get_trainer in Hj; simpl in Hj. apply (P t') in Hj. lia.
+    - split; [simpl; lia|]. split; [|split; [simpl; auto|simpl; auto]].
+      eapply quiet_trans; [eapply quiet_new_monitor; eauto|apply quiet_ext; reflexivity]. }
+  destruct (sp_unique sp).
+  - apply NEW in E. auto.
+  - destruct (alias_search s self (sp_name sp) (sp_tags sp, attr) (pool_view t) None) as [k|] eqn:Ea.
+    + inversion E; subst; clear E. apply alias_search_spec in Ea as [Ea|(obs & monitors & tg' & A & B & C & D)]; [discriminate|].
+      apply pool_view_In in A as (cn & A1 & A2).
+      assert (Hk : i < length (mons s)).
+      { apply Ht. apply pool_mids_In. exists cn, monitors, (sp_name sp). split; apply alookup_In; auto. }
+      split; [split|].
+      * eapply HW_ext; [| |apply H]; reflexivity.
+      * intros t' j Hj. apply (P t'). exact Hj.
+      * split; [exact Hk|]. split; [apply quiet_ext; reflexivity|split; reflexivity].
+    + apply NEW in E. auto.
+Qed.
+
+Lemma set_trainers_same s : set_trainers (trainers s) s = s.
+Proof. destruct s; reflexivity. Qed.
+
+Lemma quiet_upd_trainer t f s : quiet s (upd_trainer t f s).
+Proof. apply quiet_ext; reflexivity. Qed.
+
+(* MonitorPool.add_monitor *)
+Lemma pool_add_monitor_Inv1 s ti cn sp s' r :
+  pool_add_monitor s ti cn sp = (s', r) -> Inv1 s -> Inv1 s' /\ quiet s s'.
+Proof.
+  unfold pool_add_monitor. intros E I.
+  destruct (alookup cn (t_observed (get_trainer s ti))) as [cell|]; [|inversion E; subst; split; auto; apply quiet_refl].
+  set (existing := pool_get (get_trainer s ti) cn (sp_name sp)) in *.
+  set (s0 := match existing with
+             | Some _ => upd_trainer ti (pool_del_entry cn (sp_name sp)) s
+             | None => s
+             end) in *.
+  assert (I0 : Inv1 s0).
+  { unfold s0. destruct existing; auto. apply Inv1_trainers_only; auto. intros i. apply pool_del_entry_mids. }
+  assert (Q0 : quiet s s0) by (unfold s0; destruct existing; [apply quiet_upd_trainer|apply quiet_refl]).
+  assert (MAIN : (let t0 := get_trainer s0 ti in
+                  match observable_add_monitor s0 cell sp (if sp_unique sp then None else Some (pool_view t0)) with
+                  | None => (s0, Some ERuntime)
+                  | Some (s1, i) =>
+                      let s2 := if t_training t0 then s1 else deregister i s1 in
+                      (upd_trainer ti (pool_put cn (sp_name sp) i) s2, None)
+                  end) = (s', r) -> Inv1 s' /\ quiet s s').
+  { clear E. intros E. cbv zeta in E.
+    destruct (observable_add_monitor s0 cell sp (if sp_unique sp then None else Some (pool_view (get_trainer s0 ti))))
+      as [[s1 i]|] eqn:Eo; [|inversion E; subst; auto].
+    destruct (observable_add_monitor_Inv1 _ _ _ _ _ _ I0 Eo) as (I1 & Hi & Q1 & Tr & Ac).
+    { intros j Hj. destruct I0 as [_ P0]. apply (P0 ti). exact Hj. }
+    rewrite <- Tr in I1. rewrite set_trainers_same in I1.
+    set (s2 := if t_training (get_trainer s0 ti) then s1 else deregister i s1) in *.
+    assert (I2 : Inv1 s2) by (unfold s2; destruct (t_training (get_trainer s0 ti)); auto; apply Inv1_deregister; auto).
+    assert (Q2 : quiet s1 s2) by (unfold s2; destruct (t_training (get_trainer s0 ti)); [apply quiet_refl|apply quiet_deregister]).
+    assert (Hi2 : i < length (mons s2)) by (destruct Q2 as (L & _); lia).
+    assert (Tr2 : trainers s2 = trainers s1).
+    { unfold s2. destruct (t_training (get_trainer s0 ti)); auto. unfold deregister. destruct (m_reg (get_mon s1 i)); auto. }
+    inversion E; subst; clear E. split.
+    - destruct I2 as [H2 P2]. split; [eapply HW_ext; eauto; reflexivity|].
+      intros t' j Hj. change (length (mons (upd_trainer ti (pool_put cn (sp_name sp) i) s2))) with (length (mons s2)).
+      destruct (Nat.lt_ge_cases ti (length (trainers s2))) as [Ht|Ht].
+      + destruct (Nat.eq_dec ti t') as [<-|N].
+        * rewrite get_trainer_upd_same in Hj by auto. apply pool_put_mids in Hj as [->|Hj]; auto. apply (P2 ti); auto.
+        * rewrite get_trainer_upd_other in Hj by auto. apply (P2 t'); auto.
+      + unfold upd_trainer in Hj. rewrite upd_oob in Hj by auto. apply (P2 t'). destruct s2; auto.
+    - eapply quiet_trans; [exact Q0|]. eapply quiet_trans; [exact Q1|]. eapply quiet_trans; [exact Q2|].
+      apply quiet_upd_trainer. }
+  destruct existing as [k|] eqn:Ex; destruct (sp_unique sp) eqn:Eu; auto.
+  inversion E; subst; split; auto; apply quiet_refl.
+Qed.
+
+Lemma add_specs_Inv1 sps : forall s ti cn s' r,
+  add_specs s ti cn sps = (s', r) -> Inv1 s -> Inv1 s' /\ quiet s s'.
+Proof.
+  induction sps as [|sp tl IH]; simpl; intros s ti cn s' r E I.
+  - inversion E; subst. split; auto. apply quiet_refl.
+  - destruct (pool_add_monitor s ti cn sp) as [s1 [e|]] eqn:Ep.
+    + inversion E; subst. eapply pool_add_monitor_Inv1; eauto.
+    + destruct (pool_add_monitor_Inv1 _ _ _ _ _ _ Ep I) as [I1 Q1].
+      destruct (IH _ _ _ _ _ E I1) as [I2 Q2]. split; auto. eapply quiet_trans; eauto.
+Qed.
+
+(* MonitorPool.del_observed *)
+Lemma pool_del_observed_Inv1 ti cn s : Inv1 s -> Inv1 (pool_del_observed ti cn s) /\ quiet s (pool_del_observed ti cn s).
+Proof.
+  intros I. unfold pool_del_observed.
+  set (s1 := match alookup cn (t_pool (get_trainer s ti)) with
+             | Some g => upd_trainer ti (fun t => set_pool (adel cn (t_pool t)) t) (deregister_all (map snd g) s)
+             | None => s
+             end).
+  assert (I1 : Inv1 s1 /\ quiet s s1).
+  { unfold s1. destruct (alookup cn (t_pool (get_trainer s ti))) as [g|]; [|split; auto; apply quiet_refl]. split.
+    - apply Inv1_trainers_only; [|apply deregister_all_Inv1; auto].
+      intros i. rewrite !pool_mids_In. intros (cn' & g' & mn & A & B). simpl in A. apply In_adel_weak in A. eauto.
+    - eapply quiet_trans; [apply deregister_all_quiet|apply quiet_upd_trainer]. }
+  destruct I1 as [I1 Q1]. split.
+  - apply Inv1_trainers_only; auto.
+  - eapply quiet_trans; [exact Q1|apply quiet_upd_trainer].
+Qed.
+
+(* MonitorPool.del_monitor *)
+Lemma pool_del_monitor_Inv1 s ti cn mn s' r :
+  pool_del_monitor s ti cn mn = (s', r) -> Inv1 s -> Inv1 s' /\ quiet s s'.
+Proof.
+  unfold pool_del_monitor. intros E I.
+  destruct (alookup cn (t_pool (get_trainer s ti))) as [g|] eqn:Eg;
+    [|inversion E; subst; split; auto; apply quiet_refl].
+  destruct (alookup cn (t_observed (get_trainer s ti))); [|inversion E; subst; split; auto; apply quiet_refl].
+  destruct (alookup mn g) as [i|] eqn:Ei; [|inversion E; subst; split; auto; apply quiet_refl].
+  inversion E; subst; clear E. split.
+  - apply Inv1_trainers_only; [|apply Inv1_deregister; auto].
+    assert (Tr : get_trainer (deregister i s) ti = get_trainer s ti).
+    { unfold deregister. destruct (m_reg (get_mon s i)); reflexivity. }
+    rewrite Tr. intros j. rewrite !pool_mids_In. intros (cn' & g' & mn' & A & B). simpl in A.
+    destruct (adel mn g) eqn:Ed.
+    + apply In_adel_weak in A. eauto.
+    + apply In_aset_weak in A as [A|A]; [|eauto]. inversion A; subst. rewrite <- Ed in B. apply In_adel_weak in B.
+      exists cn, g, mn'. split; auto. apply alookup_In; auto.
+  - eapply quiet_trans; [apply quiet_deregister|apply quiet_upd_trainer].
+Qed.
+
+(* register_cell / del_cell / add_monitor *)
+Lemma register_cell_Inv1 w s ti cn c hp s' r :
+  register_cell w s ti cn c hp = (s', r) -> Inv1 s -> Inv1 s' /\ quiet s s'.
+Proof.
+  unfold register_cell. intros E I.
+  destruct (amem cn (t_cells (get_trainer s ti))); [inversion E; subst; split; auto; apply quiet_refl|].
+  destruct (pool_del_observed_Inv1 ti cn s I) as [I1 Q1].
+  set (s1 := pool_del_observed ti cn s) in *.
+  set (s2 := upd_trainer ti (fun t => set_cells (aset cn c (t_cells t)) t) s1) in *.
+  assert (I2 : Inv1 s2) by (apply Inv1_trainers_only; auto).
+  assert (Q2 : quiet s s2) by (eapply quiet_trans; [exact Q1|apply quiet_upd_trainer]).
+  destruct (amem cn (t_observed (get_trainer s2 ti))); [inversion E; subst; auto|].
+  destruct (amem cn (t_pool (get_trainer s2 ti))); [inversion E; subst; auto|].
+  set (s3 := upd_trainer ti (fun t => set_observed (aset cn c (t_observed t)) t) s2) in *.
+  assert (I3 : Inv1 s3) by (apply Inv1_trainers_only; auto).
+  destruct (conn_info w c) as [dt cdel].
+  destruct (add_specs_Inv1 _ _ _ _ _ _ E I3) as [I4 Q4]. split; auto.
+  eapply quiet_trans; [exact Q2|]. eapply quiet_trans; [apply quiet_upd_trainer|exact Q4].
+Qed.
+
+Lemma del_cell_Inv1 s ti cn s' r : del_cell s ti cn = (s', r) -> Inv1 s -> Inv1 s' /\ quiet s s'.
+Proof.
+  unfold del_cell. intros E I.
+  destruct (negb (amem cn (t_cells (get_trainer s ti)))); [inversion E; subst; split; auto; apply quiet_refl|].
+  inversion E; subst; clear E. destruct (pool_del_observed_Inv1 ti cn s I) as [I1 Q1]. split.
+  - apply Inv1_trainers_only; auto.
+  - eapply quiet_trans; [exact Q1|apply quiet_upd_trainer].
+Qed.
+
+Lemma add_monitor_Inv1 s ti cn sp s' r : add_monitor s ti cn sp = (s', r) -> Inv1 s -> Inv1 s' /\ quiet s s'.
+Proof.
+  unfold add_monitor. intros E I.
+  destruct (negb (amem cn (t_cells (get_trainer s ti)))); [inversion E; subst; split; auto; apply quiet_refl|].
+  eapply pool_add_monitor_Inv1; eauto.
+Qed.
+
+Lemma pool_monitors_In t i : In i (pool_monitors t) <-> In i (pool_mids t).
+Proof. unfold pool_monitors. rewrite uniq_In. reflexivity. Qed.
+
+Lemma trainer_mode_Inv1 s ti mode : Inv1 s -> Inv1 (trainer_mode s ti mode) /\ quiet s (trainer_mode s ti mode).
+Proof.
+  intros I. unfold trainer_mode.
+  set (s1 := upd_trainer ti (set_training mode) s).
+  assert (I1 : Inv1 s1) by (apply Inv1_trainers_only; auto).
+  assert (Q1 : quiet s s1) by apply quiet_upd_trainer.
+  destruct mode.
+  - split; [|eapply quiet_trans; [exact Q1|apply reregister_all_quiet]].
+    apply reregister_all_Inv1; auto. intros i Hi. apply pool_monitors_In in Hi. destruct I1 as [_ P1]. apply (P1 ti); auto.
+  - split; [apply deregister_all_Inv1; auto|eapply quiet_trans; [exact Q1|apply deregister_all_quiet]].
+Qed.
+
+Lemma set_reg_same m : set_reg (m_reg m) m = m.
+Proof. destruct m; reflexivity. Qed.
+
+Lemma deregister_mon i s j :
+  get_mon (deregister i s) j = if Nat.eqb i j then set_reg false (get_mon s j) else get_mon s j.
+Proof.
+  unfold deregister. destruct (m_reg (get_mon s i)) eqn:E.
+  - destruct (Nat.lt_ge_cases i (length (mons s))) as [Hi|Hi].
+    + destruct (Nat.eqb i j) eqn:E2.
+      * apply Nat.eqb_eq in E2; subst j. rewrite get_mon_upd_same; auto.
+      * apply Nat.eqb_neq in E2. rewrite get_mon_upd_other; auto.
+    + unfold get_mon in E. rewrite nth_overflow in E by auto. discriminate.
+  - destruct (Nat.eqb i j) eqn:E2; auto. apply Nat.eqb_eq in E2; subst j. rewrite <- E. symmetry. apply set_reg_same.
+Qed.
+
+Lemma deregister_others i s :
+  trainers (deregister i s) = trainers s /\ cmon (deregister i s) = cmon s /\ accs (deregister i s) = accs s.
+Proof. unfold deregister. destruct (m_reg (get_mon s i)); auto. Qed.
+
+(* garbage collection *)
+Lemma kill_Inv1 k s : Inv1 s -> Inv1 (upd_mon k set_dead (deregister k s)) /\ quiet s (upd_mon k set_dead (deregister k s)).
+Proof.
+  intros I. pose proof (Inv1_deregister k s I) as [H P]. split; [split|].
+  - apply HW_upd_mon; [| |exact H].
+    + cbv zeta. rewrite deregister_mon, Nat.eqb_refl. destruct (get_mon s k); simpl; auto.
+    + intros o Ho. left. destruct (get_mon (deregister k s) k); auto.
+  - intros t j Hj. rewrite length_mons_upd_mon. apply (P t). exact Hj.
+  - eapply quiet_trans; [apply quiet_deregister|apply quiet_set_dead].
+Qed.
+
+Lemma collect_from_Inv1 n : forall k s, Inv1 s -> Inv1 (collect_from k n s) /\ quiet s (collect_from k n s).
+Proof.
+  induction n as [|n IH]; simpl; intros k s I; [split; auto; apply quiet_refl|].
+  set (s1 := if m_alive (get_mon s k) && negb (referenced s k) then upd_mon k set_dead (deregister k s) else s).
+  assert (I1 : Inv1 s1 /\ quiet s s1).
+  { unfold s1. destruct (m_alive (get_mon s k) && negb (referenced s k)); [apply kill_Inv1; auto|split; auto; apply quiet_refl]. }
+  destruct I1 as [I1 Q1]. destruct (IH (S k) s1 I1) as [I2 Q2]. split; auto. eapply quiet_trans; eauto.
+Qed.
+
+Lemma collect_Inv1 s : Inv1 s -> Inv1 (collect s) /\ quiet s (collect s).
+Proof.
+  intros I. unfold collect, prune_cmon. destruct (collect_from_Inv1 (length (mons s)) 0 s I) as [I1 Q1]. split.
+  - apply Inv1_cmon; auto.
+  - eapply quiet_trans; [exact Q1|apply quiet_ext; reflexivity].
+Qed.
+
+(* ------------------------------------------------------------------ Part 2: one layer call *)
+Lemma monitor_call_spec s i stamp s' r :
+  monitor_call s i stamp = (s', r) ->
+  (r = None /\ exists rd, s' = upd_mon i (add_obs (stamp, rd)) s) \/ (r <> None /\ s' = s).
+Proof.
+  unfold monitor_call. destruct (m_reads (get_mon s i)) as [[[cell names] strict]|].
+  - destruct (do_reads s (cmon_get cell (cmon s)) names) as [[rd anyfresh]|].
+    + destruct (strict && anyfresh); intros E; inversion E; subst; [right; split; [discriminate|auto]|left; eauto].
+    + intros E; inversion E; subst. right; split; [discriminate|auto].
+  - intros E; inversion E; subst. left; eauto.
+Qed.
+
+Lemma add_obs_core o m : m_layer (add_obs o m) = m_layer m /\ m_prepend (add_obs o m) = m_prepend m /\
+                         m_reg (add_obs o m) = m_reg m /\ m_alive (add_obs o m) = m_alive m /\
+                         m_obs (add_obs o m) = o :: m_obs m /\ m_fresh (add_obs o m) = false /\
+                         m_tags (add_obs o m) = m_tags m /\ m_reads (add_obs o m) = m_reads m /\ m_attr (add_obs o m) = m_attr m.
+Proof. destruct m; simpl; repeat split. Qed.
+
+Lemma run_hooks_spec hooks : forall s tr stamp s' r,
+  NoDup hooks -> run_hooks s tr stamp hooks = (s', r) ->
+  layers s' = layers s /\ trainers s' = trainers s /\ cmon s' = cmon s /\ accs s' = accs s /\
+  length (mons s') = length (mons s) /\
+  (forall j, get_mon s' j = get_mon s j \/
+             (In j hooks /\ tr = true /\ j < length (mons s) /\ exists rd, get_mon s' j = add_obs (stamp, rd) (get_mon s j))) /\
+  (r = None -> tr = true -> forall j, In j hooks -> j < length (mons s) ->
+                            exists rd, get_mon s' j = add_obs (stamp, rd) (get_mon s j)).
+Proof.
+  induction hooks as [|i tl IH]; simpl; intros s tr stamp s' r ND E.
+  - inversion E; subst. repeat split; auto. intros _ _ j [].
+  - inversion ND as [|? ? Ni ND']; subst.
+    destruct tr.
+    + destruct (monitor_call s i stamp) as [s1 [e|]] eqn:Em.
+      * inversion E; subst. apply monitor_call_spec in Em as [[K _]|[_ ->]]; [discriminate|].
+        repeat split; auto. intros K; discriminate.
+      * apply monitor_call_spec in Em as [[_ [rd ->]]|[K _]]; [|congruence].
+        destruct (IH _ _ _ _ _ ND' E) as (A & B & C & D & L & F & G).
+        split; [exact A|]. split; [exact B|]. split; [exact C|]. split; [exact D|].
+        split; [rewrite L; apply length_mons_upd_mon|].
+        split.
+        -- intros j. destruct (F j) as [Fj|(Fi & _ & Fl & rd' & Fj)].
+           ++ destruct (Nat.eq_dec i j) as [<-|N]; [|left; rewrite Fj; apply get_mon_upd_other; auto].
+              destruct (Nat.lt_ge_cases i (length (mons s))) as [Hi|Hi].
+              ** right. split; auto. split; auto. split; auto. exists rd. rewrite Fj. apply get_mon_upd_same; auto.
+              ** left. rewrite Fj. rewrite get_mon_upd_oob by auto. reflexivity.
+           ++ right. split; auto. split; auto. rewrite length_mons_upd_mon in Fl. split; auto. exists rd'.
+              rewrite Fj. rewrite get_mon_upd_other; auto. intros ->. tauto.
+        -- intros Er _ j [<-|Hj] Hl.
+           ++ destruct (F i) as [Fj|(Fi & _)]; [|tauto]. exists rd. rewrite Fj. apply get_mon_upd_same; auto.
+           ++ destruct (G Er eq_refl j Hj) as [rd' Gj]; [rewrite length_mons_upd_mon; auto|].
+              exists rd'. rewrite Gj. rewrite get_mon_upd_other; auto. intros ->. tauto.
+    + destruct (IH _ _ _ _ _ ND' E) as (A & B & C & D & L & F & G).
+      repeat split; auto.
+      * intros j. destruct (F j) as [Fj|(_ & K & _)]; [auto|discriminate].
+      * intros _ K; discriminate.
+Qed.
+
+(* HW through the hooks: every stamp written is the layer's new step count *)
+Lemma run_hooks_HW hooks : forall s tr stamp s' r,
+  run_hooks s tr stamp hooks = (s', r) ->
+  (forall i, In i hooks -> i < length (mons s) -> stamp <= l_steps (get_layer s (m_layer (get_mon s i)))) ->
+  HW s -> HW s'.
+Proof.
+  induction hooks as [|i tl IH]; simpl; intros s tr stamp s' r E Hs H.
+  - inversion E; subst; auto.
+  - destruct tr.
+    + destruct (monitor_call s i stamp) as [s1 [e|]] eqn:Em.
+      * inversion E; subst. apply monitor_call_spec in Em as [[K _]|[_ ->]]; [discriminate|auto].
+      * apply monitor_call_spec in Em as [[_ [rd ->]]|[K _]]; [|congruence].
+        eapply IH; [exact E| |].
+        -- intros j Hj Hl. rewrite length_mons_upd_mon in Hl.
+           change (get_layer (upd_mon i (add_obs (stamp, rd)) s)) with (get_layer s).
+           destruct (Nat.eq_dec i j) as [<-|N].
+           ++ rewrite get_mon_upd_same by auto. destruct (add_obs_core (stamp, rd) (get_mon s i)) as (A & _). rewrite A. auto.
+           ++ rewrite get_mon_upd_other by auto. auto.
+        -- destruct (Nat.lt_ge_cases i (length (mons s))) as [Hi|Hi]; [|rewrite get_mon_upd_oob by auto; exact H].
+           apply HW_upd_mon; [| |exact H].
+           ++ cbv zeta. destruct (add_obs_core (stamp, rd) (get_mon s i)) as (A & B & C & _). auto.
+           ++ intros o Ho. destruct (add_obs_core (stamp, rd) (get_mon s i)) as (_ & _ & _ & _ & A & _). rewrite A in Ho.
+              destruct Ho as [<-|Ho]; [right; simpl; apply Hs; auto|left; exact Ho].
+    + eapply IH; eauto.
+Qed.
+
+Lemma layer_step_Inv1 s l s' r : layer_step s l = (s', r) -> Inv1 s -> Inv1 s'.
+Proof.
+  unfold layer_step. intros E [H P].
+  set (stamp := S (l_steps (get_layer s l))) in *.
+  set (s1 := upd_layer l (fun L => mkLayer (l_training L) (l_hooks L) stamp) s) in *.
+  destruct (Nat.lt_ge_cases l (length (layers s))) as [Hl|Hl].
+  2:{ unfold s1 in E. rewrite upd_layer_oob in E by auto. unfold get_layer in E. rewrite nth_overflow in E by auto.
+      simpl in E. inversion E; subst. split; auto. }
+  assert (G1 : forall k, get_layer s1 k = if Nat.eqb l k then mkLayer (l_training (get_layer s l)) (l_hooks (get_layer s l)) stamp
+                                          else get_layer s k).
+  { intros k. unfold s1. destruct (Nat.eqb l k) eqn:E2.
+    - apply Nat.eqb_eq in E2; subst k. rewrite get_layer_upd_same; auto.
+    - apply Nat.eqb_neq in E2. rewrite get_layer_upd_other; auto. }
+  assert (H1 : HW s1).
+  { destruct H as (A & B & C). split; [|split].
+    - intros k Hk. unfold s1 in Hk. rewrite length_layers_upd_layer in Hk. rewrite G1.
+      change (mons s1) with (mons s). change (get_mon s1) with (get_mon s).
+      destruct (Nat.eqb l k) eqn:E2; [apply Nat.eqb_eq in E2; subst k; simpl|]; apply A; auto.
+    - intros k Hk. unfold s1 in Hk. rewrite length_layers_upd_layer in Hk. rewrite G1.
+      change (get_mon s1) with (get_mon s).
+      destruct (Nat.eqb l k) eqn:E2; [apply Nat.eqb_eq in E2; subst k; simpl|]; apply B; auto.
+    - intros i Hi o Ho. change (mons s1) with (mons s) in Hi. change (get_mon s1) with (get_mon s) in *.
+      rewrite G1. specialize (C i Hi o Ho). destruct (Nat.eqb l (m_layer (get_mon s i))) eqn:E2; auto.
+      apply Nat.eqb_eq in E2. rewrite <- E2 in C. simpl. unfold stamp. lia. }
+  split.
+  - eapply run_hooks_HW; [exact E| |exact H1].
+    intros i Hi Hlen. change (get_mon s1) with (get_mon s). destruct H as (A & _).
+    apply (A l Hl) in Hi as (_ & _ & <-). rewrite G1, Nat.eqb_refl. simpl. lia.
+  - destruct H as (A & _). destruct (A l Hl) as [ND _].
+    destruct (run_hooks_spec _ _ _ _ _ _ ND E) as (_ & Tr & _ & _ & L & _).
+    intros t i Hi. unfold get_trainer in Hi. rewrite Tr in Hi. rewrite L. apply (P t). exact Hi.
+Qed.
+
+Lemma trainer_cells_step_frame w t cells : forall s s' r,
+  trainer_cells_step w s t cells = (s', r) ->
+  layers s' = layers s /\ trainers s' = trainers s /\ mons s' = mons s /\ cmon s' = cmon s.
+Proof.
+  induction cells as [|[cn c] tl IH]; simpl; intros s s' r E.
+  - inversion E; subst; auto.
+  - destruct (negb (l_training (get_layer s (cell_layer c))) || negb (t_training t)); [eapply IH; eauto|].
+    destruct (needs_ok s _ _); [inversion E; subst; auto|].
+    destruct (needs_delay (t_type t) && negb (snd (conn_info w c))); [inversion E; subst; auto|].
+    apply IH in E. simpl in E. exact E.
+Qed.
+
+Lemma quiet_same s s' : layers s' = layers s -> mons s' = mons s -> quiet s s'.
+Proof. apply quiet_ext. Qed.
+
+(* ------------------------------------------------------------------ every operation preserves Inv1 *)
+Lemma step_raw_Inv1 w s o s' r : step_raw w s o = (s', r) -> Inv1 s -> Inv1 s'.
+Proof.
+  destruct o; simpl; intros E I.
+  - eapply register_cell_Inv1; eauto.
+  - eapply del_cell_Inv1; eauto.
+  - eapply add_monitor_Inv1; eauto.
+  - eapply pool_del_monitor_Inv1; eauto.
+  - inversion E; subst. apply trainer_mode_Inv1; auto.
+  - inversion E; subst. destruct I as [(A & B & C) P]. split; [|exact P].
+    assert (G : forall k, l_hooks (get_layer (upd_layer l (fun L => mkLayer mode (l_hooks L) (l_steps L)) s) k) = l_hooks (get_layer s k)
+                          /\ l_steps (get_layer (upd_layer l (fun L => mkLayer mode (l_hooks L) (l_steps L)) s) k) = l_steps (get_layer s k)).
+    { intros k. destruct (Nat.lt_ge_cases l (length (layers s))) as [Hl|Hl]; [|rewrite upd_layer_oob by auto; auto].
+      destruct (Nat.eq_dec l k) as [<-|N]; [rewrite get_layer_upd_same by auto; auto|rewrite get_layer_upd_other by auto; auto]. }
+    split; [|split].
+    + intros k Hk. rewrite length_layers_upd_layer in Hk. destruct (G k) as [G1 _]. rewrite G1. apply A; auto.
+    + intros k Hk. rewrite length_layers_upd_layer in Hk. destruct (G k) as [G1 _]. rewrite G1. apply B; auto.
+    + intros i Hi o Ho. destruct (G (m_layer (get_mon s i))) as [_ G2].
+      change (get_mon (upd_layer l (fun L => mkLayer mode (l_hooks L) (l_steps L)) s)) with (get_mon s) in *.
+      rewrite G2. apply C; auto.
+  - eapply layer_step_Inv1; eauto.
+  - unfold trainer_step in E. apply trainer_cells_step_frame in E as (A & B & C & D).
+    destruct I as [H P]. split; [eapply HW_ext; eauto|].
+    intros t' i Hi. unfold get_trainer in Hi. rewrite B in Hi. rewrite C. apply (P t'); auto.
+  - inversion E; subst. apply clear_all_Inv1; auto.
+  - inversion E; subst. apply Inv1_trainers_only; auto. intros i. unfold kill_trainer, pool_mids; simpl. tauto.
+Qed.
+
+Theorem step_Inv1 w s o : Inv1 s -> Inv1 (fst (step w s o)).
+Proof.
+  intros I. unfold step. destruct (op_enabled s o); [|exact I].
+  destruct (step_raw w s o) as [s1 r] eqn:E. simpl. apply collect_Inv1. eapply step_raw_Inv1; eauto.
+Qed.
+
+Theorem run_Inv1 w ops : forall s, Inv1 s -> Inv1 (run w s ops).
+Proof. induction ops as [|o tl IH]; simpl; intros s I; auto. apply IH. apply step_Inv1; auto. Qed.
+
+Lemma init_pool_empty tys n : t_pool (nth n (map (fun ty => mkTrainer ty true true [] [] []) tys) dummy_trainer) = [].
+Proof. revert n. induction tys as [|ty tl IH]; intros [|n]; simpl; auto. Qed.
+
+Lemma Inv1_init w tys : Inv1 (init_state w tys).
+Proof.
+  split; [apply HW_init|]. intros t i Hi. exfalso.
+  unfold get_trainer, init_state, pool_mids in Hi; simpl in Hi. rewrite init_pool_empty in Hi. destruct Hi.
+Qed.
+
+(* the hook lists are well formed after ANY operation sequence, from the initial state *)
+Theorem hooks_wf_always w tys ops : HW (run w (init_state w tys) ops).
+Proof. apply run_Inv1. apply Inv1_init. Qed.
